@@ -164,6 +164,7 @@ DEFAULT_PROFILE = {
     "p_repeat_level": 0.0,
     "p_early_finish_pbt": 0.0,
     "p_sparse_moasha": 0.0,
+    "p_late_key": 0.0,
     "p_io_latency": 0.5,
     "p_async_stop": 0.15,
     "p_nodelay_false": 0.12,
@@ -500,6 +501,9 @@ def gen_scenario(root, profile=None):
         script["rejects"]["kinds"] = list(script["rejects"]["kinds"]) + r2.sample(["nonstr_key_np", "nonstr_key_tuple"], r2.randint(1, 2))
     if kind == "rea" and r2.chance(0.5):
         sched["mode_via_scheduler"] = True  # the searcher learns the mode from its scheduler only (as the REA baseline does)
+    if kind == "fifo_bo" and p.get("gp_skip_period") and r2.chance(0.6):
+        # surrogate hyperparameters refitted only every k-th time (a predicate with a counter, part of the searcher's state)
+        sched["gp_opts"] = dict(sched.get("gp_opts") or {}, opt_skip_period=r2.choice([2, 3]), opt_skip_init_length=r2.choice([1, 3]))
     if kind == "sync_hb_bo":
         sched["searcher_data"] = "rungs" if sched.get("gp_model") == "gp_independent" else r2.choice(["rungs", "all"])
     if kind == "moasha" and r2.chance(p["p_sparse_moasha"]) and max_t >= 4:
@@ -517,6 +521,8 @@ def gen_scenario(root, profile=None):
         script["early_finish"] = {"p": r2.choice([0.3, 0.6]), "at": r2.randint(1, max_t - 1)}
     if script.get("payload") and r2.chance(0.15):
         script["payload"] = list(script["payload"]) + ["cr"]
+    if p["world"] != "sim" and r2.chance(p["p_late_key"]):
+        script["late_key"] = r2.randint(2, 3)  # a value the script starts to report only from this level on
     if r2.chance(p["p_repeat_level"]) and kind in ("hb_stopping", "hb_rush_stopping"):
         script["repeat_level"] = r2.choice([0.1, 0.3])  # some resource values are reported twice (legal for stopping-type schedulers)
     if scen.get("latency") and p["world"] == "local" and r2.chance(p["p_io_latency"]):
